@@ -83,6 +83,14 @@ def coins_json(cs):
 
 
 def op_json(op):
+    j = op_json1(op)
+    if op.get("reentry"):
+        # re-entry program of the hostile contract (model/Reentry.v): exec operations it performs during dispatch
+        j["reentry"] = [op_json1(x) for x in op["reentry"]]
+    return j
+
+
+def op_json1(op):
     t = op["t"]
     if t == "exec":
         return {"t": "exec", "sender": op["sender"], "funds": coins_json(op["funds"]), "msg": exec_json(op["msg"])}
